@@ -27,7 +27,7 @@ def run(tier: str) -> Check:
         "which pairs pest hides under @ in every nesting needs the dynamic atomicity of the callee: only the shape-insensitivity necessary condition is decided",
         "consumption by the trivia rules themselves is covered by the operator induction, not separately",
     ]
-    repo, _ = fill(check, tier, floors={"trivia_paths": 30, "rule_paths": 200, "trivia_skeleton_variants": 5, "skeleton_paths": 100})
+    repo, _ = fill(check, tier, floors={"trivia_paths": 10, "rule_paths": 200, "trivia_skeleton_variants": 5, "skeleton_paths": 100})
     from ..triviasem import check_trivia
 
     construct = "src/pest/state.py::ParserState.parse_trivia"
